@@ -84,13 +84,13 @@ type c08Plan struct {
 	// Slots: max_accepted_htlcs of the channel (0 = the fixture's 50).
 	SlotsAB, SlotsBC int
 	Flaps            []c08FlapPlan
-	Seed      [32]byte
-	SideSat   int64
-	Pays      []c08PayPlan
-	Burst     bool
-	Restarts  int
-	RestartAt []int
-	Cuts      []*c08CutPlan
+	Seed             [32]byte
+	SideSat          int64
+	Pays             []c08PayPlan
+	Burst            bool
+	Restarts         int
+	RestartAt        []int
+	Cuts             []*c08CutPlan
 }
 
 func (p *c08Plan) String() string {
@@ -413,7 +413,7 @@ type c08Run struct {
 
 	notifier *c08Notifier
 	regs     [3]*mockInvoiceRegistry
-	caches [3]*mockPreimageCache
+	caches   [3]*mockPreimageCache
 
 	pays []*c08Pay
 	wg   sync.WaitGroup
@@ -1819,14 +1819,14 @@ func c08RunCase(t *testing.T, plan *c08Plan) *c08Result {
 	tb := &c08TB{TB: t}
 
 	cfg := &c08ClusterCfg{
-		amtAB:          btcutil.Amount(plan.SideSat),
-		amtBC:          btcutil.Amount(plan.SideSat),
-		dustA:          200,
-		dustB:          800,
-		fundSeed:       plan.Seed,
-		poolWorkers:    2,
-		maxAcceptedAB:  maxInflightHtlcs,
-		maxAcceptedBC:  maxInflightHtlcs,
+		amtAB:         btcutil.Amount(plan.SideSat),
+		amtBC:         btcutil.Amount(plan.SideSat),
+		dustA:         200,
+		dustB:         800,
+		fundSeed:      plan.Seed,
+		poolWorkers:   2,
+		maxAcceptedAB: maxInflightHtlcs,
+		maxAcceptedBC: maxInflightHtlcs,
 	}
 	if plan.SlotsAB > 0 {
 		cfg.maxAcceptedAB = uint16(plan.SlotsAB)
